@@ -452,6 +452,24 @@ func runC18Voice(c *Ctx, contactLangs []string, allowedLists [][]string, baseLan
 							if gotLang != wantLang {
 								c.Fail("monitor", "M-fallback", "voice-msg-locale", fmt.Sprintf("locale language is %q, the text was taken from %q", gotLang, wantLang), desc)
 							}
+							// K: the model's sayMsg
+							clArg := "-"
+							if cl != "" {
+								clArg = fmt.Sprint(langNum[cl])
+							}
+							var alNums []string
+							for _, a := range allowed {
+								alNums = append(alNums, fmt.Sprint(langNum[a]))
+							}
+							trArg := func(prop string) string {
+								if v, ok := tr[prop]; ok {
+									return encList([]string{fmt.Sprintf("%d=%s", langNum[other], texts(v))}, ";")
+								}
+								return encList(nil, ";")
+							}
+							c.Model("saymsg", fmt.Sprintf("saymsg %s %s %d %s %s %s %s", clArg, encList(alNums, ","), langNum[base], texts([]string{"base text"}), texts([]string{"http://x.com/base.m4a"}),
+								trArg("text"), trArg("audio_url")),
+								fmt.Sprintf("lang %d text %s audio %s", langNum[gotLang], texts([]string{msg.Msg.Text()}), texts([]string{gotAudio})), desc)
 						}
 					}
 				}
